@@ -14,7 +14,7 @@ from ..common import Verdict
 from . import c08
 
 TARGETS = ["types.ts", "commands.ts", "events.ts", "index.ts", ".typecache", "dependency-graph.txt", "dependency-graph.dot", "<output-dir>"]
-KINDS = ["open-EACCES", "write-ENOSPC", "open-SIGKILL", "EISDIR", "ENOTDIR", "fsize-limit-1KiB", "fsize-limit-2KiB", "file-in-its-place", "dangling-symlink"]
+KINDS = ["open-EACCES", "write-ENOSPC", "open-SIGKILL", "EISDIR", "ENOTDIR", "fsize-limit-1KiB", "fsize-limit-2KiB", "fsize-limit-below-largest", "file-in-its-place", "dangling-symlink"]
 PHASES = ["first-run", "after-edit", "edit-then-revert"]
 
 
@@ -38,7 +38,7 @@ def scenario(a):
         for nm in rnd.sample([e[0] for e in c08.EDITS if not isinstance(e[1], str) and e[0] not in ("mode", "visualize_deps", "remove-all-commands/restore")], rnd.randint(2, 8)):
             emap[nm](s)
     s["mode"] = mode
-    s["visualize_deps"] = True
+    s["visualize_deps"] = not kind.endswith("below-largest")      # (the graph listing would be the largest file; it is written by other code)
     root = common.scratch("c17")
     viol = []
     info = {"injected": False, "faulty_rc": None, "recovery_rc": []}
@@ -125,9 +125,21 @@ def scenario(a):
         elif kind.startswith("fsize-limit"):
             # RLIMIT_FSIZE with SIGXFSZ ignored: a write that crosses the limit is cut short, the next one fails with EFBIG
             blocks = 1 if kind.endswith("1KiB") else 2
-            rf = common.run(["bash", "-c", 'trap "" XFSZ; ulimit -f %d; exec "$@"' % blocks, "bash"] + argv(), cwd=root, hash_seed=seed % 97 + 1)
-            sizes = {f: os.path.getsize(os.path.join(out, f)) for f in os.listdir(out)} if os.path.isdir(out) else {}
-            info["injected"] = rf.rc != 0 or any(sz == blocks * 1024 for sz in sizes.values())
+            if kind.endswith("below-largest"):
+                # a limit that only the largest output file exceeds (every other write of the run fits): read the sizes off a
+                # reference generation of the state that is about to be generated
+                _rr, refo = c08.reference(cli, root, s, seed % 97 + 7)
+                sizes_ = sorted((len(t_.encode("utf-8")) for f_, t_ in refo.items() if f_ != ".typecache"), reverse=True)
+                if len(sizes_) < 2 or sizes_[0] - sizes_[1] < 16:
+                    return {"not_hit": True, "info": info}
+                limit_ = (sizes_[0] + sizes_[1]) // 2
+                rf = common.run(argv(), cwd=root, hash_seed=seed % 97 + 1, fsize_limit=limit_)
+                sizes = {f: os.path.getsize(os.path.join(out, f)) for f in os.listdir(out)} if os.path.isdir(out) else {}
+                info["injected"] = rf.rc != 0 or any(sz == limit_ for sz in sizes.values())
+            else:
+                rf = common.run(["bash", "-c", 'trap "" XFSZ; ulimit -f %d; exec "$@"' % blocks, "bash"] + argv(), cwd=root, hash_seed=seed % 97 + 1)
+                sizes = {f: os.path.getsize(os.path.join(out, f)) for f in os.listdir(out)} if os.path.isdir(out) else {}
+                info["injected"] = rf.rc != 0 or any(sz == blocks * 1024 for sz in sizes.values())
         else:
             inj = {"open-EACCES": "openat:error=EACCES", "write-ENOSPC": "write:error=ENOSPC", "open-SIGKILL": "openat:signal=SIGKILL"}[kind]
             if target == "<output-dir>":
